@@ -59,6 +59,9 @@ var xlateTargets = map[string][]string{
 		"encoderDict.Len", "encoderDict.Pos", "encoderDict.ByteAt", "iverson",
 		"decoder.decodeLiteral", "decoder.readOp", "encoder.writeLiteral", "encoder.writeMatch", "encoder.writeOp",
 		"PropertiesForCode", "Properties.Code",
+		"uint16BE", "headerChunkType", "headerLen", "chunkHeader.UnmarshalBinary", "chunkState.next", "chunkState.defaultChunkType",
+		"buffer.Buffered", "buffer.addIndex", "buffer.Discard", "buffer.WriteByte", "decoderDict.WriteByte",
+		"encoderDict.DictLen", "encoderDict.Available", "encoderDict.Buffered",
 	},
 	".": {"padLen", "readUvarint", "readSizeInBlockHeader", "readRecord", "verifyFlags"},
 }
@@ -500,6 +503,29 @@ func (c *xctx) expr(e ast.Expr) string {
 		return c.complit(v)
 	case *ast.IndexExpr:
 		return c.index(v)
+	case *ast.SliceExpr:
+		// a slice of a slice as a VALUE (a copy): only where the result is read, never written through — callers check
+		if v.Max != nil {
+			c.x.fail(e, "three-index slice")
+		}
+		if _, ok := info.Types[v.X].Type.Underlying().(*types.Slice); !ok {
+			c.x.fail(e, "slice of a non-slice")
+		}
+		base := c.expr(v.X)
+		lo, hi := "0", "("+base+").size"
+		if v.Low != nil {
+			lo = c.shiftCount(v.Low)
+		}
+		if v.High != nil {
+			hi = c.shiftCount(v.High)
+		}
+		l, h := c.fresh("lo"), c.fresh("hi")
+		c.f.canFail = true
+		c.pre = append(c.pre, func(rest string) string {
+			return fmt.Sprintf("let %s := %s%slet %s := %s%sif %s < %s ∨ (%s).size < %s then Go.Res.panic \"slice bounds out of range\" else%s%s",
+				l, lo, c.ind(), h, hi, c.ind(), h, l, base, h, c.ind(), rest)
+		})
+		return fmt.Sprintf("((%s).extract %s %s)", base, l, h)
 	}
 	c.x.fail(e, "unsupported expression %T", e)
 	return ""
